@@ -4,7 +4,7 @@ import json, glob, os
 rows=[]
 for f in sorted(glob.glob(os.path.join(os.path.dirname(os.path.dirname(os.path.abspath(__file__))),'seeded','*','meta.json'))):
     m=json.load(open(f))
-    checks=m.get('checks_on_repo_with_change',{})
+    checks=m.get('checks_on_repo_with_change') or m.get('checks_on_scratch_worktree_with_change',{})
     caught=[k for k,v in checks.items() if v.get('exit')==1]
     missed=[k for k,v in checks.items() if v.get('exit')==0]
     first=''
